@@ -8,6 +8,7 @@ import SciVerif.Lemmas.C13m
 import SciVerif.Lemmas.C13n
 import SciVerif.Lemmas.C13o
 import SciVerif.Lemmas.C13p
+import SciVerif.Lemmas.C13q
 
 /-!
 # C13 — DIP node paths follow indentation and values are the literals written
@@ -853,5 +854,43 @@ theorem C13_escape_marks_inverse (s : Str) (h : ∀ c ∈ s, c ≠ '$') :
   ⟨decode_encQ_dq s h, decode_encQ_sq s h⟩
 
 example : escQ '"' "say \"hi\"".toList = "say \\\"hi\\\"".toList := by decide
+
+
+/-! ## literal escape marks (the repair e0ecb06 of `DIP._determine_node`)
+
+`_determine_node` protects `\\'`, `\\"` and newlines by the marks `$@00`, `$@01`, `$@02` while the node
+parser runs and puts the characters back afterwards.  Before the repair a mark that was *written
+literally* in the code was decoded as well (`t str = "a$@01b"` had the value `a"b`); the repaired
+code escapes the mark `$@` itself first (`$@03`) and restores it last — `encodeM` / `decodeM` of
+`Lemmas/C13q.lean`. -/
+
+/-- the old functions do change a literal mark: the defect, as a closed computation -/
+theorem C13_old_marks_counterexample :
+    decode (encode "a$@01b".toList) = "a\"b".toList := by decide +kernel
+
+/-- **Literal marks survive**: for EVERY text without backslash and newline — whatever `$`, `@`
+    and digits it holds, in particular every text made of the marks themselves — the repaired
+    encoding followed by the repaired decoding is the identity. -/
+theorem C13_literal_marks_survive (s : Str) (h : NoEsc s) : decodeM (encodeM s) = s := by
+  have hne : NoEsc (esc s) := NoEsc_esc s.length s (Nat.le_refl _) h
+  have e0 : enc0 = ['$', '@', '0', '0'] := by decide
+  have e1 : enc1 = ['$', '@', '0', '1'] := by decide
+  have e2 : enc2 = ['$', '@', '0', '2'] := by decide
+  simp only [decodeM, encodeM, encode_noEsc (esc s) hne, decode]
+  rw [e0, replaceAll_oldmark_esc '0' (by decide) _ s.length s (Nat.le_refl _),
+    e1, replaceAll_oldmark_esc '1' (by decide) _ s.length s (Nat.le_refl _),
+    e2, replaceAll_oldmark_esc '2' (by decide) _ s.length s (Nat.le_refl _)]
+  exact replaceAll_enc3_esc s.length s (Nat.le_refl _)
+
+/-- the repair is conservative: on text without `$` the repaired functions are the old ones, so
+    every theorem above that is stated with `encode` / `decode` under a "no `$`" hypothesis speaks
+    about the repaired code as well -/
+theorem C13_marks_conservative (s x : Str) (hs : ∀ c ∈ s, c ≠ '$') (hx : ∀ c ∈ decode x, c ≠ '$') :
+    encodeM s = encode s ∧ decodeM x = decode x :=
+  ⟨encodeM_noDollar s hs, decodeM_noDollar x hx⟩
+
+example : NoEsc "a$@01b $@ $$@00 $@03".toList := by
+  intro c hc; revert c; decide
+example : decodeM (encodeM "a$@01b $@ $$@00 $@03".toList) = "a$@01b $@ $$@00 $@03".toList := by decide +kernel
 
 end SciVerif.C13
